@@ -19,6 +19,8 @@ LANES = {
     "C10": [dict(REL), dict(DBG)],
     "C05": [dict(REL)],
     "C09": [dict(REL)],
+    "C11": [dict(REL)],
+    "C16": [dict(REL)],
     "C07": [dict(REL), dict(DBG)],
     "C13": [dict(REL)],
     "C14": [dict(REL), dict(DBG)],
